@@ -22,7 +22,7 @@ def run(ctx):
     n = ctx.pick(1500, 20000)
     cases, meta = [], []
     for i in range(n):
-        idx = rng.choice([rng.randrange(0, 12), rng.randrange(0, 128), rng.randrange(0, 301)])
+        idx = rng.choice([rng.randrange(0, 12), rng.randrange(0, 128), rng.randrange(120, 260), rng.randrange(0, 301)])
         kind = rng.randrange(6)
         qf = q.quant_factor(idx)
         if kind == 0:
@@ -37,8 +37,12 @@ def run(ctx):
             c = rng.randrange(-5000, 5000)
         if rng.random() < 0.5:
             c = -c
-        fq = q.forward_quant(c, idx)
-        obs = (qf, q.quant_offset(idx), fq, q.inverse_quant(c, idx), q.inverse_quant(fq, idx))
+        try:
+            fq = q.forward_quant(c, idx)
+            obs = (qf, q.quant_offset(idx), fq, q.inverse_quant(c, idx), q.inverse_quant(fq, idx))
+        except Exception as e:   # the property implies that no call raises for idx >= 0
+            ctx.violation("quant-raises", {"idx": idx, "c": c}, "exception %r" % (e,))
+            continue
         cases.append("(%s, %s, %s)" % (cz(idx), cz(c), clist(obs)))
         meta.append((idx, c))
         ctx.count(1, key=(idx, c) if fq != 0 else None, bucket="idx<12" if idx < 12 else ("idx<128" if idx < 128 else "idx<=300"))
@@ -69,6 +73,8 @@ def run(ctx):
             ctx.violation("inverse_quant-1-not-increasing", {"idx": idx, "MINIMUM_DISTINCT_QINDEX": mdq},
                           "inverse_quant(1,%d) !< inverse_quant(1,%d)" % (idx, idx + 1))
         cs = [0, 1, -1, qf // 4, qf // 4 + 1, -(qf // 4), qf, -qf, 3 * qf // 4 + 1]
+        # small QUANTISED magnitudes at every index (coefficients k*qf/4 quantise to about k)
+        cs += [s_ * (k * qf // 4 + d) for k in (1, 2, 3, 7, 15, 16, 17) for d in (0, 1) for s_ in (1, -1)]
         cs += [rng.randrange(-(1 << rng.randrange(1, 260)), 1 << rng.randrange(1, 260)) for _ in range(ctx.pick(6, 40))]
         cs += mism_cs(mism, idx)
         for c in cs:
